@@ -1,17 +1,17 @@
-CONSTANT Threads = {"t1", "t2"}
-CONSTANT Keys = {"k1", "k2"}
-CONSTANT CvKeys = {"k1"}
+CONSTANT Threads = {"t1", "t2", "t3"}
+CONSTANT Keys = {"k1", "k2", "k3"}
+CONSTANT CvKeys = {"k1", "k3"}
 CONSTANT RevKeys = {"k2"}
 CONSTANT DocOf <- MCDocOf
 CONSTANT Contents = {"c1", "c2"}
-CONSTANT Configs <- CfQuick
+CONSTANT Configs <- Cf3
 CONSTANT Fails = {"ok", "fd"}
-CONSTANT FailKeys = {"k1", "k2"}
+CONSTANT FailKeys = {"k1", "k2", "k3"}
 CONSTANT OpSet = {"Get", "GetActive", "Put", "Upsert", "Remove", "Peek"}
 CONSTANT FreePut = TRUE
 CONSTANT MaxOps = 2
-CONSTANT MaxSteps = 3
-CONSTANT Pool = 4
+CONSTANT MaxSteps = 4
+CONSTANT Pool = 5
 CONSTANT SeqPrefix = 1
 SPECIFICATION Spec
 VIEW view
